@@ -130,6 +130,10 @@ func EncodeFresh(msg any) ([]byte, error, *mon.Panic) {
 
 // ---------------------------------------------------------------- computed fields
 
+// servicesAbsent is set in the "checksum services unregistered" re-run of a check: a frame then carries the
+// caller's checksum value through unchanged (that is what the generated encoders do), only the length is computed.
+var servicesAbsent bool
+
 // frameInfo describes the self-computed fields of a frame type.
 type frameInfo struct {
 	lenField string
@@ -186,7 +190,7 @@ func withCorrectComputed(t *schema.Type, msg any, w []byte) any {
 	v := reflect.ValueOf(c).Elem()
 	bl := len(w) - fi.hdr - fi.trailer()
 	gen.SetScalarBits(v.FieldByName(fi.lenField), fi.lenKind, uint64(bl))
-	if fi.sumField != "" {
+	if fi.sumField != "" && !servicesAbsent {
 		x, _ := ref.Checksum(fi.alg, w[:len(w)-fi.trailer()])
 		gen.SetScalarBits(v.FieldByName(fi.sumField), fi.sumKind, x)
 	}
